@@ -89,6 +89,18 @@ Ltac head_in HL Hk :=
   let x := fresh "x" in let l := fresh "l" in let T := fresh "T" in
   inversion HL as [|x l Hk T]; subst; unfold inK in Hk; cbn [ekey] in Hk.
 
+(* the steps of the meta-call builtins and of the control goals neither read nor write the fact store *)
+Lemma lift_m_agree d1 d2 nf fr lg x : dbK d1 d2 -> kagree (lift_m (mkms d1 nf fr lg) x) (lift_m (mkms d2 nf fr lg) x).
+Proof.
+  intros HK. destruct x as [fr'|k]; cbn [lift_m kagree mdb mnf mlog]; [|split; [reflexivity|]]; apply agreeK_mk; exact HK.
+Qed.
+Lemma lift_m_log m x : klog m (lift_m m x) = mlog m.
+Proof. destruct x; reflexivity. Qed.
+Lemma lift_m_db m x : kdb m (lift_m m x) = mdb m.
+Proof. destruct x; reflexivity. Qed.
+Lemma lift_m_silent m x : klog m (lift_m m x) = mlog m /\ kdb m (lift_m m x) = mdb m.
+Proof. split; [apply lift_m_log|apply lift_m_db]. Qed.
+
 Lemma dbstep_agree h0 fresh newid d1 d2 nf fr lg b tr cnt t gs r : dbK d1 d2 ->
   Forall inK (klog (mkms d1 nf fr lg) (dbstep h0 fresh newid (mkms d1 nf fr lg) b tr cnt t gs r)) ->
   kagree (dbstep h0 fresh newid (mkms d1 nf fr lg) b tr cnt t gs r)
@@ -119,14 +131,23 @@ Proof.
   cbn [mnf mfr mlog mdb] in *. subst nf2 fr2 lg2.
   unfold sstep. cbn [mfr mdb mnf mlog].
   destruct fr as [|f r]; [intros _; exact I|].
-  destruct f as [tr cnt gs|tr cnt args f gs|tr cnt fn args gs|tr cnt args cl gs|tr cnt nm args f gs].
-  - destruct gs as [|[nm args] gs]; cbn [klog mlog kagree]; intros HL.
-    + split; [reflexivity|]. apply agreeK_mk. exact HK.
+  destruct f as [tr cnt gs|tr cnt args f gs|tr cnt fn args gs|tr cnt args cl gs|tr cnt nm args f gs| |tr cnt gs
+                 |tr cnt bag acc nc gs].
+  6: { intros _. apply (@lift_m_agree d1 d2 nf (FBar :: r) lg (MGo r) HK). }
+  6: { intros _. apply (@lift_m_agree d1 d2 nf (FNeg tr cnt gs :: r) lg (MGo (FGoals tr cnt gs :: r)) HK). }
+  6: { intros _. apply (@lift_m_agree d1 d2 nf (FColl tr cnt bag acc nc gs :: r) lg (coll_finish h0 tr cnt bag acc nc gs r) HK). }
+  - destruct gs as [|[nm args] gs].
+    { cbn [klog mlog kagree]; intros HL. split; [reflexivity|]. apply agreeK_mk. exact HK. }
+    destruct (ctl_goal h0 fresh tr cnt nm args gs r) as [x|].
+    { intros _. apply (@lift_m_agree d1 d2 nf (FGoals tr cnt ((nm, args) :: gs) :: r) lg x HK). }
+    cbn [klog mlog kagree]; intros HL.
     + head_in HL Hk. rewrite (proj2 (proj2 HK) _ _ Hk), (find_function_dbK _ _ nm (length args) HK).
       apply agreeK_mk. exact HK.
   - intros _. destruct (unify_arrays2 UF (tr ++ h0) args (map (rn (fun i => fresh (cnt + i))) f)); cbn [kagree];
       try split; try reflexivity; apply agreeK_mk; exact HK.
   - destruct fn as [ds|]; [|intros _; cbn [kagree]; apply agreeK_mk; exact HK].
+    destruct (meta_builtin ds) as [mb|].
+    { intros _. apply (@lift_m_agree d1 d2 nf (FFun tr cnt (Some ds) args gs :: r) lg (metastep h0 mb tr cnt args gs r) HK). }
     destruct (db_builtin ds) as [b|].
     + destruct args as [|t [|t2 args]];
         try (intros _; cbn [kagree]; split; [reflexivity|apply agreeK_mk; exact HK]).
@@ -155,10 +176,17 @@ Qed.
 Lemma sstep_log h0 fresh newid m : exists pre, klog m (sstep h0 fresh newid m) = pre ++ mlog m.
 Proof.
   unfold sstep. destruct (mfr m) as [|f r]; [exists []; reflexivity|].
-  destruct f as [tr cnt gs|tr cnt args f gs|tr cnt fn args gs|tr cnt args cl gs|tr cnt nm args f gs].
-  - destruct gs as [|[nm args] gs]; cbn [klog mlog]; [exists []; reflexivity|eexists [_]; reflexivity].
+  destruct f as [tr cnt gs|tr cnt args f gs|tr cnt fn args gs|tr cnt args cl gs|tr cnt nm args f gs| |tr cnt gs
+                 |tr cnt bag acc nc gs].
+  6: { exists []. apply lift_m_log. }
+  6: { exists []. apply lift_m_log. }
+  6: { exists []. apply lift_m_log. }
+  - destruct gs as [|[nm args] gs]; [exists []; reflexivity|].
+    destruct (ctl_goal h0 fresh tr cnt nm args gs r) as [x|]; [exists []; apply lift_m_log|].
+    cbn [klog mlog]. eexists [_]; reflexivity.
   - destruct (unify_arrays2 UF (tr ++ h0) args (map (rn (fun i => fresh (cnt + i))) f)); exists []; reflexivity.
   - destruct fn as [ds|]; [|exists []; reflexivity].
+    destruct (meta_builtin ds) as [mb|]; [exists []; apply lift_m_log|].
     destruct (db_builtin ds) as [b|].
     + destruct args as [|t [|t2 args]]; try (exists []; reflexivity). apply dbstep_log.
     + destruct (clauses_of ds); exists []; reflexivity.
@@ -228,10 +256,17 @@ Lemma sstep_writes h0 fresh newid m :
   Forall wrOut (klog m (sstep h0 fresh newid m)) -> dbK (mdb m) (kdb m (sstep h0 fresh newid m)).
 Proof.
   unfold sstep. destruct (mfr m) as [|f r]; [intros _; apply dbK_refl|].
-  destruct f as [tr cnt gs|tr cnt args f gs|tr cnt fn args gs|tr cnt args cl gs|tr cnt nm args f gs].
-  - destruct gs as [|[nm args] gs]; intros _; apply dbK_refl.
+  destruct f as [tr cnt gs|tr cnt args f gs|tr cnt fn args gs|tr cnt args cl gs|tr cnt nm args f gs| |tr cnt gs
+                 |tr cnt bag acc nc gs].
+  6: { intros _. rewrite lift_m_db. apply dbK_refl. }
+  6: { intros _. rewrite lift_m_db. apply dbK_refl. }
+  6: { intros _. rewrite lift_m_db. apply dbK_refl. }
+  - destruct gs as [|[nm args] gs]; [intros _; apply dbK_refl|].
+    destruct (ctl_goal h0 fresh tr cnt nm args gs r) as [x|]; [intros _; rewrite lift_m_db; apply dbK_refl|].
+    intros _; apply dbK_refl.
   - destruct (unify_arrays2 UF (tr ++ h0) args (map (rn (fun i => fresh (cnt + i))) f)); intros _; apply dbK_refl.
   - destruct fn as [ds|]; [|intros _; apply dbK_refl].
+    destruct (meta_builtin ds) as [mb|]; [intros _; rewrite lift_m_db; apply dbK_refl|].
     destruct (db_builtin ds) as [b|].
     + destruct args as [|t [|t2 args]]; try (intros _; apply dbK_refl). apply dbstep_writes.
     + destruct (clauses_of ds); intros _; apply dbK_refl.
